@@ -322,6 +322,59 @@ Proof.
 Qed.
 Print Assumptions C12_reopen_float_level.
 
+(* ------------------------------------------------------------------ *)
+(* Round 4: arguments, probe types, shanks processed                   *)
+(* ------------------------------------------------------------------ *)
+
+(* Which probe types are converted (commercial type numbers included), and what the default
+   arguments mean: nwindow=None is the 2 s window 60000 (admissible), nsamples=None the whole file. *)
+Theorem C12_probe_types_and_defaults :
+  (forall t, np_version t = 21 <-> t = 21 \/ t = 1030) /\
+  (forall t, np_version t = 24 <-> t = 24 \/ t = 2013) /\
+  window_of 0 = 60000 /\ admissible (window_of 0) = true /\
+  (forall nsf, nsamples_of 0 nsf = nsf) /\ (forall a nsf, a <> 0 -> nsamples_of a nsf = a).
+Proof.
+  split; [|split; [|split; [reflexivity|split; [reflexivity|split]]]].
+  - intros t. unfold np_version.
+    destruct (t =? 21) eqn:E1; destruct (t =? 1030) eqn:E2; destruct (t =? 24) eqn:E3; destruct (t =? 2013) eqn:E4;
+      cbn [orb]; lia.
+  - intros t. unfold np_version.
+    destruct (t =? 21) eqn:E1; destruct (t =? 1030) eqn:E2; destruct (t =? 24) eqn:E3; destruct (t =? 2013) eqn:E4;
+      cbn [orb]; lia.
+  - intros nsf. reflexivity.
+  - intros a nsf Ha. unfold nsamples_of. destruct (a =? 0) eqn:E; [lia|reflexivity].
+Qed.
+Print Assumptions C12_probe_types_and_defaults.
+
+(* NP2.4 with nshank=None: every shank that occurs in the shank map gets its files, exactly once,
+   in increasing order.  NP2.1: the converter's assert leaves exactly the situation theorem
+   C12_lf_meta_opens_NP21 assumes (one shank holding every site), and the file it writes is lf_file. *)
+Theorem C12_shanks_processed : forall shanks,
+  (forall ash l, shanks_processed 24 [] shanks ash = Some l ->
+     incr l /\ forall s, In s l <-> In s shanks) /\
+  (forall nshank l, shanks_processed 21 nshank shanks true = Some l ->
+     exists s, l = [s] /\ shanks <> [] /\ Forall (fun x => x = s) shanks) /\
+  (forall v m n mn sh, lf_file_chns v m (file_chns v true shanks (nsaved m) (sns2 m) sh) n mn sh
+                       = lf_file v m shanks n mn sh).
+Proof.
+  intros shanks. split; [|split].
+  - intros ash l H. cbn in H. injection H as <-. exact (uniq_sorted_spec shanks).
+  - intros nshank l H. cbn in H. destruct (uniq_sorted_spec shanks) as [_ Hin].
+    destruct (uniq_sorted shanks) as [|s [|? ?]] eqn:E; try discriminate. injection H as <-.
+    exists s. split; [reflexivity|]. split.
+    + intros ->. cbn in E. discriminate.
+    + apply Forall_forall. intros x Hx. apply Hin in Hx. destruct Hx as [<-|[]]. reflexivity.
+  - intros v m n mn sh. unfold file_chns, lf_file_chns, lf_file. rewrite andb_false_r. reflexivity.
+Qed.
+Print Assumptions C12_shanks_processed.
+
+Example C12_example_shanks :
+  shanks_processed 24 [] [2; 0; 2; 1; 0] true = Some [0; 1; 2] /\
+  shanks_processed 24 [3; 1] [2; 0; 2; 1; 0] true = Some [3; 1] /\
+  shanks_processed 21 [] [0; 0; 0] true = Some [0] /\ shanks_processed 21 [] [0; 1; 0] true = None /\
+  file_chns 21 false [0; 1; 0] 4 1 0 = [0; 1; 2; 3] /\ np_version 2013 = 24 /\ np_version 0 = 0.
+Proof. vm_compute. repeat split. Qed.
+
 (* hypotheses of the theorems above are met by concrete, non-trivial inputs *)
 Example C12_example_margins :
   option_map (fun rs => (row_margins (nth 1 rs d4))) (lf_windows 1900 612)
